@@ -454,6 +454,11 @@ func (k Keeper) DistributeExtRewardStableVault(ctx sdk.Context) error {
 							}
 						}
 
+						// other holders redeeming through the stable-mint vault lower the total minted but not this
+						// user's entry: nobody's share of the epoch rewards can be more than the whole
+						if eligibleRewardAmt.GT(totalMintedData) {
+							eligibleRewardAmt = totalMintedData
+						}
 						individualUserShare := sdk.NewDec(eligibleRewardAmt.Int64()).Quo(sdk.NewDecFromInt(totalMintedData)) // getting share percentage
 						Duration := extRew.DurationDays - int64(epoch.Count)                                     // duration left (total duration - current count)
 						epochRewards := (sdk.NewDec(totalRewards.Amount.Int64())).Quo(sdk.NewDec(Duration))
